@@ -75,16 +75,25 @@ Proof.
   apply split_on1_join in E. exact E.
 Qed.
 
+(* evaluate the closed byte-string literals of the goal *)
+Ltac eval_lits :=
+  repeat match goal with
+         | |- context [b ?s] => let x := eval vm_compute in (b s) in change (b s) with x
+         | |- context [byte_of_N_trunc ?n] =>
+             let x := eval vm_compute in (byte_of_N_trunc n) in change (byte_of_N_trunc n) with x
+         end.
+
 (* the two format strings *)
 Lemma sprintf_raw hs ext : sprintf_s iri_raw_format [hs; ext] = iri_parse_prefix ++ hs ++ dot :: ext.
 Proof.
-  unfold iri_raw_format, iri_parse_prefix. cbn [b list_byte_of_string sprintf_s app].
-  rewrite app_nil_r. reflexivity.
+  unfold iri_raw_format, iri_parse_prefix, dot. eval_lits.
+  cbn [sprintf_s app]. rewrite app_nil_r. reflexivity.
 Qed.
 
 Lemma sprintf_graph hs : sprintf_s iri_graph_format [hs] = iri_parse_prefix ++ hs ++ dot :: iri_parse_graph_ext.
 Proof.
-  unfold iri_graph_format, iri_parse_prefix. cbn [b list_byte_of_string sprintf_s app]. reflexivity.
+  unfold iri_graph_format, iri_parse_prefix, iri_parse_graph_ext, dot. eval_lits.
+  cbn [sprintf_s app]. reflexivity.
 Qed.
 
 (* ---------- small facts about the constants ---------- *)
